@@ -146,6 +146,14 @@ func timeFlags(e any) string {
 	return out
 }
 
+// seenBy: the LastResult / LastError a listener is shown (C17: those of the most recent completed attempt)
+func seenBy(e interface {
+	LastResult() int
+	LastError() error
+}) string {
+	return fmt.Sprintf("[%d,%s]", e.LastResult(), errTreeStr(e.LastError()))
+}
+
 func fl(e flagged) string {
 	return flagsOf(e) + timeFlags(e)
 }
@@ -177,12 +185,12 @@ func (s *composeSlice) build() {
 			}
 			applyConds(t[3], func(e ...error) { b.HandleErrors(e...) }, func(a ...any) { b.HandleErrorTypes(a...) }, func(r int) { b.HandleResult(r) }, func(p func(int, error) bool) { b.HandleIf(p) })
 			applyConds(t[4], func(e ...error) { b.AbortOnErrors(e...) }, func(a ...any) { b.AbortOnErrorTypes(a...) }, func(r int) { b.AbortOnResult(r) }, func(p func(int, error) bool) { b.AbortIf(p) })
-			b.OnFailure(func(e failsafe.ExecutionEvent[int]) { s.emit("rp.onFailure"+fl(e), pos, e.Attempts(), e.Executions()) }).
-				OnSuccess(func(e failsafe.ExecutionEvent[int]) { s.emit("rp.onSuccess"+fl(e), pos, e.Attempts(), e.Executions()) }).
-				OnAbort(func(e failsafe.ExecutionEvent[int]) { s.emit("rp.onAbort"+fl(e), pos, e.Attempts(), e.Executions()) }).
-				OnRetriesExceeded(func(e failsafe.ExecutionEvent[int]) { s.emit("rp.onRetriesExceeded"+fl(e), pos, e.Attempts(), e.Executions()) }).
-				OnRetryScheduled(func(e failsafe.ExecutionScheduledEvent[int]) { s.emit("rp.onRetryScheduled"+fl(e), pos, e.Attempts(), e.Executions()) }).
-				OnRetry(func(e failsafe.ExecutionEvent[int]) { s.emit("rp.onRetry"+fl(e), pos, e.Attempts(), e.Executions()) })
+			b.OnFailure(func(e failsafe.ExecutionEvent[int]) { s.emit("rp.onFailure"+seenBy(e)+fl(e), pos, e.Attempts(), e.Executions()) }).
+				OnSuccess(func(e failsafe.ExecutionEvent[int]) { s.emit("rp.onSuccess"+seenBy(e)+fl(e), pos, e.Attempts(), e.Executions()) }).
+				OnAbort(func(e failsafe.ExecutionEvent[int]) { s.emit("rp.onAbort"+seenBy(e)+fl(e), pos, e.Attempts(), e.Executions()) }).
+				OnRetriesExceeded(func(e failsafe.ExecutionEvent[int]) { s.emit("rp.onRetriesExceeded"+seenBy(e)+fl(e), pos, e.Attempts(), e.Executions()) }).
+				OnRetryScheduled(func(e failsafe.ExecutionScheduledEvent[int]) { s.emit("rp.onRetryScheduled"+seenBy(e)+fl(e), pos, e.Attempts(), e.Executions()) }).
+				OnRetry(func(e failsafe.ExecutionEvent[int]) { s.emit("rp.onRetry"+seenBy(e)+fl(e), pos, e.Attempts(), e.Executions()) })
 			s.policies = append(s.policies, b.Build())
 			// a built policy is a snapshot of its builder (retry, fallback, timeout, hedge copy their configuration in Build):
 			// what the builder is told afterwards must not reach it. The handle / abort conditions and OnSuccess / OnFailure
